@@ -130,6 +130,18 @@ fn pairs() -> Vec<Pair> {
         Pair { refused: false, name: "add_child/steady", setup: vec![],
             op: Op::AddChildOnly { ca: "d".into(), parent: "p".into(),
                 asn: "AS65004".into(), v4: "10.4.0.0/16".into(), v6: "".into() } },
+        Pair { refused: false, name: "remove_publisher/with_objects", setup: vec![
+                // a CA that was a child of p, published, and was then
+                // removed at p: its objects are still at the server
+                Op::AddCa { ca: "d".into(), parent: "p".into(),
+                    asn: "AS65004".into(), v4: "10.4.0.0/16".into(),
+                    v6: "".into() },
+                Op::Quiesce,
+                roa("d", &["10.4.0.0/24 => 65004"], &[]), Op::Quiesce,
+                Op::ChildRemove { parent: "p".into(), child: "d".into() },
+                Op::Quiesce,
+            ],
+            op: Op::RemovePublisher { publisher: "d".into() } },
         Pair { refused: false, name: "add_parent/child_registered", setup: vec![
                 Op::AddChildOnly { ca: "d".into(), parent: "p".into(),
                     asn: "AS65004".into(), v4: "10.4.0.0/16".into(),
@@ -318,7 +330,18 @@ fn loads_and_keeps(
 /// Lets background work run for a bounded while (no demand that the queue
 /// becomes idle: an interrupted request may leave tasks waiting for it),
 /// then O4: the tree is RP-valid and says what is configured.
+/// CA left out of the exactness oracle for the pair being run (its publisher
+/// is removed on purpose).
+static ORACLE_SKIP: std::sync::Mutex<Option<String>> = std::sync::Mutex::new(None);
+
+fn apply_skip(w: &mut World) {
+    if let Ok(g) = ORACLE_SKIP.lock() {
+        if let Some(ca) = g.as_ref() { w.oracle_skip.insert(ca.clone()); }
+    }
+}
+
 fn pump_and_validate(w: &mut World) -> Vec<Issue> {
+    apply_skip(w);
     for round in 0..2 {
         if round > 0 {
             // every CA calls its parents and synchronises its repository,
@@ -343,6 +366,7 @@ fn pump_and_validate(w: &mut World) -> Vec<Issue> {
 
 /// Catch up completely, then the same oracle.
 fn settle_and_validate(w: &mut World) -> Vec<Issue> {
+    apply_skip(w);
     // tasks that failed on the injected fault come back after 5 minutes
     let (runs, _) = w.quiesce_within(400, 6000);
     for run in &runs {
@@ -517,6 +541,9 @@ fn pick_cuts(muts: &[Mutation], max: usize, rng: &mut Rng) -> Vec<usize> {
 }
 
 fn run_pair(r: &mut Report, args: &Args, pair: &Pair, rng: &mut Rng) {
+    *ORACLE_SKIP.lock().unwrap() =
+        if pair.name.starts_with("remove_publisher") { Some("d".into()) }
+        else { None };
     let dir: PathBuf = args.work.join("w");
     let pre = args.work.join("pre");
     let cuts = args.work.join("cuts");
